@@ -321,6 +321,67 @@ theorem mpfa2d_linear_exact (G : Grid2) (K : Mat) (a : Vec) (b : Rat) (p bc : Li
       · rw [G.mkFace_bnd bc v f c s hl]; split <;> rfl
       · simp [Grid2.isBoundary, hl] at hb
 
+/-- **Grid level, clause "a constant pressure produces zero flux".**  For every well-formed, fully
+    certified 2-D grid the assembled scheme applied to constant data (cells and Dirichlet faces `b`,
+    Neumann faces `0`) gives flux `0` on every face and pressure `b` on every boundary face. -/
+theorem mpfa2d_const_zero_flux (G : Grid2) (K : Mat) (b : Rat) (p bc : List Rat) (Ls : List Mat)
+    (hwf : G.WF) (hdata : G.ConstGlobal K b p bc) (hcert : G.certs = some Ls) :
+    ∀ f < G.numFaces,
+      G.faceFlux (G.nodeSols Ls p bc) bc f = 0 ∧
+      (G.isBoundary f = true → G.facePres (G.nodeSols Ls p bc) bc f = b) := by
+  have haff : G.AffineGlobal K (zeros 2) b p bc := by
+    constructor
+    · intro c hc
+      obtain ⟨hK, hp⟩ := hdata.1 c hc
+      exact ⟨hK, by rw [hp]; simp [affine]⟩
+    · intro f hf
+      have h := hdata.2 f hf
+      unfold Grid2.bcConstOK at h
+      unfold Grid2.bcOK
+      split
+      · rename_i c s hl
+        rw [hl] at h
+        simp only [affine, nKg_zeros, dot_zeros_left] at h ⊢
+        split
+        · rename_i hd; simp only [hd, if_true] at h; rw [h]; simp
+        · rename_i hd; simp only [hd] at h; rw [h]; simp
+      · trivial
+  intro f hf
+  obtain ⟨h1, h2⟩ := mpfa2d_linear_exact G K (zeros 2) b p bc Ls hwf (by simp) haff hcert f hf
+  refine ⟨by rw [h1, nKg_zeros]; simp, fun hb => ?_⟩
+  rw [h2 hb]; simp [affine]
+
+/-- **Every region the model builds satisfies the hypotheses of the region theorems** — for every
+    well-formed 2-D grid, every node, every boundary-type assignment and all data: the region is
+    well-formed, and it carries affine data whenever the global data are affine. -/
+theorem mpfa2d_regions_wellformed (G : Grid2) (hwf : G.WF) (K : Mat) (a : Vec) (b : Rat)
+    (p bc : List Rat) (v : Nat) (hv : v < G.numNodes) :
+    (G.region p bc v).WF 2 ∧ (G.AffineGlobal K a b p bc → (G.region p bc v).AffineData K a b) :=
+  ⟨G.region_wf hwf p bc v hv, fun h => G.region_affine hwf K a b p bc h v⟩
+
+/-- **Certified grid ⇒ every interaction region is nonsingular, for all data.** -/
+theorem mpfa2d_regions_nonsingular (G : Grid2) (Ls : List Mat) (hwf : G.WF)
+    (hcert : G.certs = some Ls) (p bc : List Rat) (v : Nat) (hv : v < G.numNodes) :
+    (G.region p bc v).Nonsingular 2 :=
+  certificate_nonsingular 2 _ _ (G.region_wf hwf p bc v hv) (G.certs_ok Ls hcert p bc v hv)
+
+/-- **The assembled scheme uses THE solution of every local system, for arbitrary (non-affine) data**:
+    the gradients `L_v · rhs_v` stored by `nodeSols` agree with every gradient assignment that
+    satisfies the rows of region `v`.  Hence the columns the driver returns (the scheme applied to
+    unit vectors) are the columns of the MPFA-O scheme defined by the rows, not merely something
+    that is right on affine data. -/
+theorem mpfa2d_gradients_sound (G : Grid2) (Ls : List Mat) (hwf : G.WF) (hcert : G.certs = some Ls)
+    (p bc : List Rat) (v : Nat) (hv : v < G.numNodes) (Gf : Nat → Vec)
+    (hG : ∀ i, (Gf i).length = 2) (hc : (G.region p bc v).Consistent Gf) :
+    ∀ i < (G.region p bc v).cells.length,
+      gradFn (Grid2.nodeSolAt (G.nodeSols Ls p bc) v).Gs i = Gf i := by
+  intro i hi
+  rw [G.nodeSolAt_nodeSols Ls p bc v hv]
+  show gradFn (chunks 2 (G.region p bc v).cells.length
+    (mulVec (Ls.getD v []) ((G.region p bc v).rhs 2))) i = Gf i
+  rw [cert_solution 2 _ _ (G.region_wf hwf p bc v hv) (G.certs_ok Ls hcert p bc v hv) Gf hG hc,
+    gradFn_tabulate _ _ _ hi]
+
 /-- the computed affine data satisfy `AffineGlobal` when the permeability is the same in all cells -/
 theorem affineData_affineGlobal (G : Grid2) (K : Mat) (a : Vec) (b : Rat)
     (hK : ∀ c < G.numCells, G.permAt c = K) :
@@ -338,6 +399,29 @@ theorem affineData_affineGlobal (G : Grid2) (K : Mat) (a : Vec) (b : Rat)
     split
     · split <;> rfl
     · trivial
+
+/-- **Closed form**: what the driver's `apply` returns on the computed affine data, as lists — the
+    hypotheses are the decidable input conditions `G.WF`, constant permeability, and the computed
+    certificate `G.certs`; no per-case oracle is involved. -/
+theorem mpfa2d_apply_exact (G : Grid2) (K : Mat) (a : Vec) (b : Rat) (Ls : List Mat)
+    (hwf : G.WF) (ha : a.length = 2) (hK : ∀ c < G.numCells, G.permAt c = K)
+    (hcert : G.certs = some Ls) :
+    (G.apply Ls (G.affineData K a b).1 (G.affineData K a b).2).1 =
+      (List.range G.numFaces).map (fun f => -(nKg (G.fnAt f) K a)) ∧
+    ∀ f < G.numFaces, G.isBoundary f = true →
+      (G.apply Ls (G.affineData K a b).1 (G.affineData K a b).2).2.getD f 0 = affine a b (G.fcAt f) := by
+  have hdata := affineData_affineGlobal G K a b hK
+  have hmain := mpfa2d_linear_exact G K a b _ _ Ls hwf ha hdata hcert
+  constructor
+  · unfold Grid2.apply
+    apply List.map_congr_left
+    intro f hf
+    exact (hmain f (List.mem_range.mp hf)).1
+  · intro f hf hb
+    unfold Grid2.apply
+    simp only
+    rw [getD_map_range _ G.numFaces f 0 hf]
+    exact (hmain f hf).2 hb
 
 /-- `withAffine` produces affine data (the driver uses it to fill in the data from `(K, a, b)`). -/
 theorem withAffine_affineData (R : Region) (K : Mat) (a : Vec) (b : Rat) :
@@ -421,6 +505,19 @@ example :
     (exGrid.certs).map (fun Ls =>
       (exGrid.apply Ls (exGrid.affineData exK [3, -2] (1/2)).1 (exGrid.affineData exK [3, -2] (1/2)).2).1)
       = some [-4, -4, -4, 3, 3, 3, 3] := by decide +kernel
+
+/-- `mpfa2d_const_zero_flux`, `mpfa2d_apply_exact`, `mpfa2d_regions_nonsingular` on the concrete grid:
+    hypotheses hold, constant data give zero flux everywhere -/
+example :
+    (∀ c < exGrid.numCells, exGrid.permAt c = exK) ∧
+    (exGrid.certs).map (fun Ls =>
+      (exGrid.apply Ls (exGrid.affineData exK [0, 0] 5).1 (exGrid.affineData exK [0, 0] 5).2).1)
+      = some [0, 0, 0, 0, 0, 0, 0] := by decide +kernel
+
+example : ∀ v < exGrid.numNodes, (exGrid.region [] [] v).Nonsingular 2 := by
+  have h : (exGrid.certs).isSome = true := by decide +kernel
+  obtain ⟨Ls, hLs⟩ := Option.isSome_iff_exists.mp h
+  exact fun v hv => mpfa2d_regions_nonsingular exGrid Ls (by decide +kernel) hLs [] [] v hv
 
 /-- constant data: zero flux -/
 example :
